@@ -36,7 +36,7 @@ void Broker::emit_raw(int conn, const std::string& bytes, bool hostile) {
         ref::StructuralScope structural;   // what the broker itself emits is judged structurally (C19 interpretation note in DESIGN.md)
         auto r = ref::decode((const unsigned char*)bytes.data() + off, bytes.size() - off);
         if (r.st == ref::D_OK) { e.pkt = r.pkt; e.raw = bytes.substr(off, r.consumed); off += r.consumed; }
-        else { e.malformed = true; e.raw_hostile = hostile; e.why = r.why; e.raw = bytes.substr(off); off = bytes.size(); }
+        else { e.malformed = true; e.incomplete = (r.st == ref::D_INCOMPLETE); e.raw_hostile = hostile; e.why = r.why; e.raw = bytes.substr(off); off = bytes.size(); }
         c.emitted += e.raw.size(); e.b2c_end = c.emitted;
         // completion of client->broker exchanges (Receive Maximum accounting happens when the ack is really sent)
         if (!e.malformed) {
